@@ -27,6 +27,9 @@ C = {
  "C08": ("enum", "exhaustive enumeration of element sequences and nestings against a reference bundle encoder",
          "All element sequences up to length 3 (thorough 4; up to the API maximum 8 over a 2-letter alphabet) over 5 messages and representatives of nesting depth 1..2 (thorough 1..4), 7 boundary time tags, two storage layouts, are bundled by rtosc_bundle (real varargs) and decomposed again; bytes, element count, offsets, sizes, time tag and total length are compared with the reference; all plain messages are checked not to be taken for bundles.",
          "reference encoder; elements handed over by pointer as the API requires"),
+ "C09": ("enum", "exhaustive enumeration of generated port trees and of all runtime states of a macro-built application against a reference expansion",
+         "walk_ports is run on every generated tree (depth 1..3, thorough 4; #N at any level, multi-component names, argument specs) from an empty and a non-empty name buffer and on a macro-built application in all 256 states of its pointers and enabling toggles; the reported (port, address) multiset is compared with a reference expansion, the name buffer must be restored, and every reported address must dispatch to the reported port.",
+         "reference expansion from the tree description; reference matcher for the dispatch part"),
  "C12": ("bfs", "explicit-state search over application states reached by parameter messages; per state save/parse/load oracle",
          "Breadth-first search over all states of three macro-built applications reachable by parameter messages up to a depth (2/4/4, thorough 3/5/5, plus root states); in every state the savefile is produced, parsed line-wise by the harness and checked for minimality against defaults computed by the harness, loaded into a fresh instance and compared field by field; negative files (wrong header, other app, unparsable / unaccepted line at every position) must be rejected.",
          "applications apps/save_apps.h follow the documented macro usage; expected defaults come from the app description, not from the library"),
